@@ -334,4 +334,120 @@ def gen_file(rng):
     return f
 
 
-GENERATORS = {"obj:BitstreamWriter": gen_writer, "file": gen_file}
+def gen_bits_or_bytes(rng):
+    n = rng.randint(0, 6)
+    if rng.random() < 0.5:
+        return [rng.randint(0, 1) for _ in range(n)]
+    return [rng.choice([0, 255, 128, 1, rng.randrange(256)]) for _ in range(n)]
+
+
+GENERATORS = {"obj:BitstreamWriter": gen_writer, "file": gen_file, "list:int": gen_bits_or_bytes,
+              "param:bits": lambda rng: rng.choice([rng.randint(-2, 12), rng.randint(0, 40)]),
+              "param:num_bytes": lambda rng: rng.randint(-2, 7)}
+
+
+# ---- bit arrays: write_bitarray (two loops over write_bit) -----------------------------------------------------------------
+
+
+@spec(W + "write_bitarray")
+class _w_write_bitarray:
+    """`value` is a bitarray: modelled as a list of 0/1 (TRUSTED: iterating a bitarray yields its bits as 0/1 in order, len() is their number)."""
+    args = {"self": WRITER, "bits": "int", "value": "list:int"}
+    requires = ["winv(self)", "self._file != value",
+                "forall(0, length(value), lambda j: content(value)[j] == 0 or content(value)[j] == 1, trigger=lambda j: content(value)[j])"]
+    modifies = FRAME_W
+    raises = {"OutOfRangeError": "length(value) > bits", "ValueError": "wbounded(self) and not fits(self, bits)"}
+    raises_exact = ["OutOfRangeError"]
+    ensures = COMMON_W + [
+        # inside the block (or unbounded): exactly `bits` bits are appended - the array's bits, then zeros
+        "implies(old(fits(self, bits)), wpos(self) == old(wpos(self)) + imax0(bits))",
+        "implies(old(fits(self, bits)), forall(0, length(value), lambda j: tbit(wview(self), old(wpos(self)) + j) == content(value)[j], "
+        "trigger=lambda j: content(value)[j]))",
+        "implies(old(fits(self, bits)), forall(old(wpos(self)) + length(value), old(wpos(self)) + bits, lambda q: tbit(wview(self), q) == 0, "
+        "trigger=lambda q: tbit(wview(self), q)))",
+        "implies(old(wbounded(self)) and old(fits(self, bits)), self._bits_remaining == old(self._bits_remaining) - imax0(bits))",
+    ]
+    invariants = {
+        1: [
+            "winv(self)", "self._file == old(self._file)", "self._file != value", "wbounded(self) == old(wbounded(self))",
+            "implies(wbounded(self), wlimit(self) == old(wlimit(self)))",
+            "same_before(wview(self), old(wview(self)), old(wpos(self)))", "wpos(self) >= old(wpos(self))",
+            "0 <= _k and _k <= length(value) and length(value) <= bits and length(value) == old(length(value)) and content(value) == old(content(value))",
+            "implies(old(fits(self, bits)), wpos(self) == old(wpos(self)) + _k)",
+            "implies(old(fits(self, bits)), forall(0, _k, lambda j: tbit(wview(self), old(wpos(self)) + j) == content(value)[j], trigger=lambda j: content(value)[j]))",
+            "implies(old(wbounded(self)), self._bits_remaining == old(self._bits_remaining) - _k)",
+        ],
+        2: [
+            "winv(self)", "self._file == old(self._file)", "self._file != value", "wbounded(self) == old(wbounded(self))",
+            "implies(wbounded(self), wlimit(self) == old(wlimit(self)))",
+            "same_before(wview(self), old(wview(self)), old(wpos(self)))", "wpos(self) >= old(wpos(self))",
+            "length(value) <= _k and _k <= bits and length(value) == old(length(value)) and content(value) == old(content(value))",
+            "implies(old(fits(self, bits)), wpos(self) == old(wpos(self)) + _k)",
+            "implies(old(fits(self, bits)), forall(0, length(value), lambda j: tbit(wview(self), old(wpos(self)) + j) == content(value)[j], trigger=lambda j: content(value)[j]))",
+            "implies(old(fits(self, bits)), forall(old(wpos(self)) + length(value), old(wpos(self)) + _k, lambda q: tbit(wview(self), q) == 0, trigger=lambda q: tbit(wview(self), q)))",
+            "implies(old(wbounded(self)), self._bits_remaining == old(self._bits_remaining) - _k)",
+        ],
+    }
+
+
+# ---- byte strings: write_bytes (a loop over write_nbits(8, byte), then zero padding) ----------------------------------------
+
+
+@inline
+def bytes_written(view, p, value, k):
+    """The first k bytes of `value` stand at p, p+8, ... in the view (each as an 8-bit value, MSB first)."""
+    return forall(0, k, lambda j: bitsval(view, p + 8 * j, 8) == content(value)[j], trigger=lambda j: content(value)[j])
+
+
+@inline
+def zero_bytes(view, p, k0, k1):
+    """Bytes number k0 .. k1-1 after p are zero."""
+    return forall(k0, k1, lambda j: bitsval(view, p + 8 * j, 8) == 0, trigger=lambda j: bitsval(view, p + 8 * j, 8))
+
+
+@spec(W + "write_bytes")
+class _w_write_bytes:
+    """`value` is a bytes / bytearray object: a list of integers 0..255 (TRUSTED: bytearray(value) iterates the same bytes)."""
+    args = {"self": WRITER, "num_bytes": "int", "value": "list:int"}
+    requires = ["winv(self)", "self._file != value",
+                "forall(0, length(value), lambda j: 0 <= content(value)[j] and content(value)[j] <= 255, trigger=lambda j: content(value)[j])"]
+    modifies = FRAME_W
+    raises = {"OutOfRangeError": "length(value) > num_bytes", "ValueError": "wbounded(self) and not fits(self, 8 * num_bytes)"}
+    raises_exact = ["OutOfRangeError"]
+    ensures = COMMON_W + [
+        "implies(old(fits(self, 8 * num_bytes)), wpos(self) == old(wpos(self)) + 8 * imax0(num_bytes))",
+        "implies(old(fits(self, 8 * num_bytes)), bytes_written(wview(self), old(wpos(self)), value, length(value)))",
+        "implies(old(fits(self, 8 * num_bytes)), zero_bytes(wview(self), old(wpos(self)), length(value), num_bytes))",
+        "implies(old(wbounded(self)) and old(fits(self, 8 * num_bytes)), self._bits_remaining == old(self._bits_remaining) - 8 * imax0(num_bytes))",
+    ]
+    invariants = {
+        1: [
+            "winv(self)", "self._file == old(self._file)", "self._file != value", "wbounded(self) == old(wbounded(self))",
+            "implies(wbounded(self), wlimit(self) == old(wlimit(self)))",
+            "same_before(wview(self), old(wview(self)), old(wpos(self)))", "wpos(self) >= old(wpos(self))",
+            "0 <= _k and _k <= length(value) and length(value) <= num_bytes and length(value) == old(length(value)) and content(value) == old(content(value))",
+            "implies(old(fits(self, 8 * num_bytes)), wpos(self) == old(wpos(self)) + 8 * _k)",
+            "implies(old(fits(self, 8 * num_bytes)), bytes_written(wview(self), old(wpos(self)), value, _k))",
+            "implies(old(wbounded(self)) and old(fits(self, 8 * num_bytes)), self._bits_remaining == old(self._bits_remaining) - 8 * _k)",
+        ],
+        2: [
+            "winv(self)", "self._file == old(self._file)", "self._file != value", "wbounded(self) == old(wbounded(self))",
+            "implies(wbounded(self), wlimit(self) == old(wlimit(self)))",
+            "same_before(wview(self), old(wview(self)), old(wpos(self)))", "wpos(self) >= old(wpos(self))",
+            "length(value) <= _k and _k <= num_bytes and length(value) == old(length(value)) and content(value) == old(content(value))",
+            "implies(old(fits(self, 8 * num_bytes)), wpos(self) == old(wpos(self)) + 8 * _k)",
+            "implies(old(fits(self, 8 * num_bytes)), bytes_written(wview(self), old(wpos(self)), value, length(value)))",
+            "implies(old(fits(self, 8 * num_bytes)), zero_bytes(wview(self), old(wpos(self)), length(value), _k))",
+            "implies(old(wbounded(self)) and old(fits(self, 8 * num_bytes)), self._bits_remaining == old(self._bits_remaining) - 8 * _k)",
+        ],
+    }
+    ghost = {
+        "entry": ['use("blen_bound", 0, 8)', 'use("blen_def", 0)'],
+        "loop1.body_start": ["(g_Vb := wview(self))", "(g_Pb := wpos(self))", 'use("blen_bound", content(value)[_k], 8)', 'use("pow2_8")'],
+        # bytes written earlier lie wholly before the position at which this iteration started writing: unchanged
+        "loop1.body_end": ["apply_forall(bitsval_ext, lambda m: (wview(self), g_Vb, old(wpos(self)) + 8 * m, 8), trigger=lambda m: bitsval(wview(self), old(wpos(self)) + 8 * m, 8)) "
+                           "if old(fits(self, 8 * num_bytes)) else None"],
+        "loop2.body_start": ["(g_Vc := wview(self))"],
+        "loop2.body_end": ["apply_forall(bitsval_ext, lambda m: (wview(self), g_Vc, old(wpos(self)) + 8 * m, 8), trigger=lambda m: bitsval(wview(self), old(wpos(self)) + 8 * m, 8)) "
+                           "if old(fits(self, 8 * num_bytes)) else None"],
+    }
